@@ -106,7 +106,7 @@ package corebgp
 // what the reader goroutine hands to the FSM (rely/guarantee at the rendezvous: an
 // obligation at every send in fsm.read, a hypothesis at every receive)
 //@ pure openParamsOK(o) = forall k :: 0 <= k && k < len(o.optionalParams) ==> isType(o.optionalParams[k], *capabilityOptionalParam) && asType(o.optionalParams[k], *capabilityOptionalParam) != nil
-//@ chaninv fsm.readerMsgCh(m) = m != nil && (isType(m, *openMessage) ==> asType(m, *openMessage) != nil && openParamsOK(asType(m, *openMessage))) && (isType(m, *Notification) ==> asType(m, *Notification) != nil && len(asType(m, *Notification).Data) <= 4075) && (isType(m, *keepAliveMessage) ==> asType(m, *keepAliveMessage) != nil)
+//@ chaninv fsm.readerMsgCh(m) = m != nil && (isType(m, *openMessage) || isType(m, *Notification) || isType(m, *keepAliveMessage) || isType(m, updateMessage)) && (isType(m, *openMessage) ==> asType(m, *openMessage) != nil && openParamsOK(asType(m, *openMessage))) && (isType(m, *Notification) ==> asType(m, *Notification) != nil && len(asType(m, *Notification).Data) <= 4075) && (isType(m, *keepAliveMessage) ==> asType(m, *keepAliveMessage) != nil)
 //@ pure errWellFormed(e) = hasType(e, *notificationError) ==> firstOf(e, *notificationError) != nil && firstOf(e, *notificationError).notification != nil && len(firstOf(e, *notificationError).notification.Data) <= 4075
 //@ chaninv fsm.readerErrCh(e) = e != nil && errWellFormed(e) && (hasType(e, *notificationError) ==> firstOf(e, *notificationError).out)
 //@ pure errCarries(e, n, out) = hasType(e, *notificationError) && firstOf(e, *notificationError) != nil && firstOf(e, *notificationError).notification == n && firstOf(e, *notificationError).out == out
